@@ -14,6 +14,10 @@ git -C /repo worktree add -q --detach $WT HEAD || exit 2
 SAVE=$(mktemp -d /tmp/seedsave.XXXXXX)
 cp -a evidence replays $SAVE/
 trap 'git -C /repo worktree remove --force '$WT' >/dev/null 2>&1; rm -rf evidence replays; cp -a '$SAVE'/evidence '$SAVE'/replays .; rm -rf '$SAVE EXIT
+cp /verif/seeded/$ID/zz_demo_test.go $WT/ 2>/dev/null
+DEMO0=$(cd $WT && go test -count=1 -run 'ZZDemo|Demo' . 2>&1 | tail -1)
+echo "demo without change: $DEMO0"
+rm -f $WT/zz_demo_test.go
 if ! git -C $WT apply /verif/seeded/$ID/patch.diff; then echo "PATCH DOES NOT APPLY"; exit 2; fi
 ( cd $WT && go build ./... ) || { echo "BUILD FAILS"; exit 2; }
 SUITE=$(cd $WT && go test -count=1 ./... 2>&1 | tail -1)
